@@ -90,6 +90,8 @@ def run(tier):
     if m is not None:
         lexcorr.compare(ck, m, strs, relation="tokens = the specification's lexical grammar")
         lexcorr.compare(ck, m, extra, relation="tokens = the specification's lexical grammar", key_prefix="lexgen")
+        lexcorr.compare(ck, m, lexcorr.escape_family(rng, 0 if quick else 40),
+                        relation="tokens = the specification's lexical grammar", key_prefix="lexesc")
         ck.exhaustive = True
     ck.samples.append({"source": strs[len(strs) // 3]})
     ck.samples.append({"source": extra[-1][:200]})
